@@ -243,6 +243,9 @@ func rgGen(seed int64, n int, args []string, out *json.Encoder) {
 			if len(prefix) > 0 && rng.Intn(10) == 0 {
 				return ""
 			}
+			if len(prefix) > 0 && rng.Intn(12) == 0 {
+				return "/" // the group path with a trailing slash (an extra empty segment): "/g" + "/" is "/g/", not "/g"
+			}
 			return p
 		}
 		for j := 0; j < k; j++ {
